@@ -43,7 +43,7 @@ Proof. exact sem_try_map_reject. Qed.
 Example C06_F2_refuted :
   let toks := [97; 98; 100]%N in
   let g := Or (Then (Just [97; 98]%N) (Just [99%N])) (TryMap PTrue FId 7 (Just [120%N])) in
-  run_top (mkQ false false true false false false false false false None) KRich toks (fun a b => (a, b)) 12 Emit g
+  run_top (mkQ false false true false false false false false false false None) KRich toks (fun a b => (a, b)) 12 Emit g
     = TRes None [mkErr (0, 1) (REF [pTok 120%N] (Some 97%N)) []]
   /\ run_top no_quirks KRich toks (fun a b => (a, b)) 12 Emit g
     = TRes None [mkErr (2, 3) (REF [pTok 99%N] (Some 100%N)) []].
